@@ -254,7 +254,11 @@ class NDNApp:
         if typ == enc.LpTypeNumber.LP_PACKET:
             try:
                 lp_pkt = enc.parse_lp_packet_v2(data, with_tl=True)
-            except (enc.DecodeError, TypeError, ValueError, struct.error):
+                if lp_pkt.fragment is None:
+                    # An LpPacket without a Fragment (e.g. IDLE) carries no network-layer packet
+                    return
+                typ, _ = enc.parse_tl_num(lp_pkt.fragment)
+            except (enc.DecodeError, IndexError, TypeError, ValueError, struct.error):
                 self.logger.warning('Unable to decode received packet')
                 return
             if lp_pkt.nack is not None:
@@ -263,7 +267,6 @@ class NDNApp:
                 nack_reason = None
             pit_token = lp_pkt.pit_token
             data = lp_pkt.fragment
-            typ, _ = enc.parse_tl_num(data)
         else:
             nack_reason = None
             pit_token = None
@@ -271,7 +274,7 @@ class NDNApp:
         if nack_reason is not None:
             try:
                 name, _, _, _ = enc.parse_interest(data, with_tl=True)
-            except (enc.DecodeError, TypeError, ValueError, struct.error):
+            except (enc.DecodeError, IndexError, TypeError, ValueError, struct.error):
                 self.logger.warning('Unable to decode the fragment of LpPacket')
                 return
             if self.logger.isEnabledFor(logging.DEBUG):
@@ -281,7 +284,7 @@ class NDNApp:
             if typ == enc.TypeNumber.INTEREST:
                 try:
                     name, param, app_param, sig = enc.parse_interest(data, with_tl=True)
-                except (enc.DecodeError, TypeError, ValueError, struct.error):
+                except (enc.DecodeError, IndexError, TypeError, ValueError, struct.error):
                     self.logger.warning('Unable to decode received packet')
                     return
                 if self.logger.isEnabledFor(logging.DEBUG):
@@ -294,7 +297,7 @@ class NDNApp:
             elif typ == enc.TypeNumber.DATA:
                 try:
                     name, meta_info, content, sig = enc.parse_data(data, with_tl=True)
-                except (enc.DecodeError, TypeError, ValueError, struct.error):
+                except (enc.DecodeError, IndexError, TypeError, ValueError, struct.error):
                     self.logger.warning('Unable to decode received packet')
                     return
                 if self.logger.isEnabledFor(logging.DEBUG):
